@@ -957,8 +957,12 @@ impl<'tcx> Dumper<'tcx> {
                 head!("struct");
                 let res = self.qpath_res(cx, qp, e.hir_id);
                 match res {
-                    Res::Def(_, did) | Res::SelfTyAlias { alias_to: did, .. } | Res::SelfCtor(did) => {
-                        self.def_ref(&mut o, "", did)
+                    Res::Def(_, did) => self.def_ref(&mut o, "", did),
+                    Res::SelfTyAlias { .. } | Res::SelfCtor(_) => {
+                        // `Self { .. }`: name the ADT, not the impl block
+                        if let ty::Adt(adt, _) = t.kind() {
+                            self.def_ref(&mut o, "", adt.did());
+                        }
                     }
                     _ => {}
                 }
